@@ -4,6 +4,7 @@ import (
 	"context"
 	"errors"
 	"fmt"
+	"math/big"
 	"reflect"
 	"strconv"
 
@@ -217,47 +218,16 @@ func equal(lhsV, rhsV reflect.Value) bool {
 		rhsV = rhsV.Elem()
 	}
 
-	// Compare a string and a number.
-	// This will attempt to convert the string to a number,
-	// while leaving the other side alone. Code further
-	// down takes care of converting ints and floats as needed.
+	// Compare a string and a number: the string has to be a numeral
+	// denoting that number, whichever side it is on.
 	if isNum(lhsV) && rhsV.Kind() == reflect.String {
-		rhsF, err := tryToFloat64(rhsV)
-		if err != nil {
-			// Couldn't convert RHS to a float, they can't be compared.
-			return false
-		}
-		rhsV = reflect.ValueOf(rhsF)
+		return numEqualsNumeral(lhsV, rhsV.String())
 	} else if lhsV.Kind() == reflect.String && isNum(rhsV) {
-		// If the LHS is a string formatted as an int, try that before trying float
-		lhsI, err := tryToInt64(lhsV)
-		if err != nil {
-			// if LHS is a float, e.g. "1.2", we need to set lhsV to a float64
-			lhsF, err := tryToFloat64(lhsV)
-			if err != nil {
-				return false
-			}
-			lhsV = reflect.ValueOf(lhsF)
-		} else {
-			lhsV = reflect.ValueOf(lhsI)
-		}
+		return numEqualsNumeral(rhsV, lhsV.String())
 	}
 
 	if isNum(lhsV) && isNum(rhsV) {
-		lhsKind := lhsV.Kind()
-		rhsKind := rhsV.Kind()
-		lhsIsFloat := lhsKind == reflect.Float32 || lhsKind == reflect.Float64
-		rhsIsFloat := rhsKind == reflect.Float32 || rhsKind == reflect.Float64
-		if !lhsIsFloat && !rhsIsFloat {
-			return toInt64(lhsV) == toInt64(rhsV)
-		}
-		// when both are same kind, direct comparison is safe
-		if lhsKind == rhsKind {
-			return toFloat64(lhsV) == toFloat64(rhsV)
-		}
-		// mixed types: use string representation for compatibility
-		// (e.g. float32(1.1) should equal float64(1.1))
-		return numToString(lhsV) == numToString(rhsV)
+		return equalNums(lhsV, rhsV)
 	}
 
 	// Try to compare bools to strings and numbers
@@ -274,6 +244,60 @@ func equal(lhsV, rhsV reflect.Value) bool {
 	}
 
 	return reflect.DeepEqual(lhsV.Interface(), rhsV.Interface())
+}
+
+// equalNums returns true when the two numeric values are equal.
+func equalNums(lhsV, rhsV reflect.Value) bool {
+	lhsKind := lhsV.Kind()
+	rhsKind := rhsV.Kind()
+	lhsIsFloat := lhsKind == reflect.Float32 || lhsKind == reflect.Float64
+	rhsIsFloat := rhsKind == reflect.Float32 || rhsKind == reflect.Float64
+	if !lhsIsFloat && !rhsIsFloat {
+		return toInt64(lhsV) == toInt64(rhsV)
+	}
+	// when both are same kind, direct comparison is safe
+	if lhsKind == rhsKind {
+		return toFloat64(lhsV) == toFloat64(rhsV)
+	}
+	if lhsIsFloat && rhsIsFloat {
+		// float32 and float64: use string representation for compatibility
+		// (e.g. float32(1.1) should equal float64(1.1))
+		return numToString(lhsV) == numToString(rhsV)
+	}
+	// an integer and a float are equal exactly when <= and >= both hold,
+	// and those compare as float64
+	return toFloat64(lhsV) == toFloat64(rhsV)
+}
+
+// numEqualsNumeral returns true when the string s is a numeral denoting the
+// numeric value numV.
+func numEqualsNumeral(numV reflect.Value, s string) bool {
+	strV := reflect.ValueOf(s)
+	// a string formatted as an int is compared as an int
+	if i, err := tryToInt64(strV); err == nil {
+		return equalNums(numV, reflect.ValueOf(i))
+	}
+	f, err := tryToFloat64(strV)
+	if err != nil {
+		return false
+	}
+	switch numV.Kind() {
+	case reflect.Float32, reflect.Float64:
+		return equalNums(numV, reflect.ValueOf(f))
+	}
+	// numV is an integer and s is written with a fraction or an exponent:
+	// a float64 cannot hold every int64, so decide with enough precision
+	bf, _, err := big.ParseFloat(s, 10, 128, big.ToNearestEven)
+	if err != nil || !bf.IsInt() {
+		return false
+	}
+	switch numV.Kind() {
+	case reflect.Uint, reflect.Uint8, reflect.Uint16, reflect.Uint32, reflect.Uint64, reflect.Uintptr:
+		u, accuracy := bf.Uint64()
+		return accuracy == big.Exact && u == numV.Uint()
+	}
+	i, accuracy := bf.Int64()
+	return accuracy == big.Exact && i == numV.Int()
 }
 
 // isHashable returns true if the value can be used as a map key without
